@@ -171,7 +171,7 @@ pub fn escape_table(cx: &mut Ctx, refd: &serde_json::Value, rule: &str) {
         Some(po) => {
             let t = sm::tsx(&po.block);
             let maxd = refd["octal"]["max_digits"].as_u64().unwrap();
-            let loop_ok = t.contains(&format!("whileoctet_content.len()<{}{{matchself.peek(){{Some('0'..='7')=>{{octet_content.push(self.next_char().unwrap())}},_=>{{break;}},}}}}", maxd));
+            let loop_ok = t.contains(&format!("whileoctet_content.len()<{}{{matchself.peek(){{Some('0'..='7')=>octet_content.push(self.next_char().unwrap()),_=>{{break;}},}}}}", maxd));
             let conv_ok = t.ends_with("letvalue=u32::from_str_radix(&octet_content,8).unwrap();char::from_u32(value).unwrap()}");
             if loop_ok {
                 cx.ok(rule, "parse_octet reads at most 3 octal digits, each peeked as '0'..='7' before it is consumed");
@@ -190,7 +190,7 @@ pub fn escape_table(cx: &mut Ctx, refd: &serde_json::Value, rule: &str) {
         None => cx.anchor_missing(rule, "parse_unicode_literal"),
         Some(pu) => {
             let t = sm::tsx(&pu.block);
-            let ok = t.contains("foriin1..=literal_number{matchself.next_char(){Some(c)=>matchc.to_digit(16){Some(d)=>p+=d<<((literal_number-i)*4),None=>returnErr(unicode_error),},None=>returnErr(unicode_error),}}")
+            let ok = t.contains("foriin1..=literal_number{matchself.next_char(){Some(c)=>matchc.to_digit(16){Some(d)=>p+=d<<((literal_number-i)*4),_=>returnErr(unicode_error),},_=>returnErr(unicode_error),}}")
                 && t.contains("matchp{55296..=57343=>Ok(std::char::REPLACEMENT_CHARACTER),_=>std::char::from_u32(p).ok_or(unicode_error),}");
             if ok {
                 cx.ok(rule, "parse_unicode_literal: n hex digits, most significant first; surrogates -> U+FFFD; invalid scalar -> error");
@@ -656,7 +656,7 @@ fn lex_string_order(cx: &mut Ctx) {
     let Some(lx) = lr::load_lexer(cx, rule) else { return };
     let Some(f) = lr::lexer_method(&lx, "lex_string") else { return cx.anchor_missing(rule, "lex_string") };
     let t = sm::tsx(&f.block);
-    let p_bs = t.find("matchc{'\\\\'=>{matchself.next_char(){Some(next_c)=>{string_content.push('\\\\');string_content.push(next_c);continue;},_=>{},}},_=>{},}");
+    let p_bs = t.find("matchc{'\\\\'=>matchself.next_char(){Some(next_c)=>{string_content.push('\\\\');string_content.push(next_c);continue;},_=>{},},_=>{},}");
     let p_eol = t.find("ifc=='\\n'&&!triple_quoted{");
     let p_q = t.find("ifc==quote_char{");
     match (p_bs, p_eol, p_q) {
@@ -673,7 +673,7 @@ fn lex_string_order(cx: &mut Ctx) {
     } else {
         cx.fail(rule, &format!("{}/triple-close", rule), &lx.loc(f), "the closing-quote logic is not `triple ? (two more quotes => consume both, break) : break`");
     }
-    if t.contains("}string_content.push(c);}None=>") && t.matches("string_content.push(").count() == 3 {
+    if t.contains("}string_content.push(c);}_=>") && t.matches("string_content.push(").count() == 3 {
         cx.ok(rule, "every other character is pushed unchanged (3 push sites in all)");
     } else {
         cx.fail(rule, &format!("{}/content", rule), &lx.loc(f), "content characters are not pushed exactly once each");
